@@ -35,14 +35,18 @@ def gen_world(rng):
     pool = [["a", {"k": "scalar", "name": rng.choice(G.SC)}], ["r", {"k": "ref", "target": L0}], ["u", Un],
             ["rs", {"k": "array", "item": {"k": "ref", "target": L1}, "shape": [rng.choice([2, None])], "order": [0]}],
             ["us", {"k": "array", "item": Un, "shape": [rng.choice([2, None])], "order": [0]}],
-            ["inner", inner], ["ra", {"k": "ref", "target": A}], ["s", {"k": "string"}]]
+            ["inner", inner], ["ra", {"k": "ref", "target": A}], ["s", {"k": "string"}],
+            ["rm", {"k": "array", "item": {"k": "ref", "target": L1}, "shape": [2, rng.choice([2, 3, None])], "order": [1, 0]}]]
     while True:
         fields = [f for f in pool if rng.random() < 0.5]
         if any(G.has_kind(ft, "ref") or G.has_kind(ft, "union") for _, ft in fields) and 1 <= len(fields):
             break
     N = {"k": "struct", "name": "N" + hashlib.sha1(json.dumps(fields, sort_keys=True).encode()).hexdigest()[:8], "fields": fields}
     D = {"k": "struct", "name": "D" + N["name"][1:], "fields": [["d", {"k": "ref", "target": N}], ["k", {"k": "scalar", "name": "Int64"}]]}
-    NA = {"k": "array", "item": N, "shape": [rng.choice([2, None])], "order": [0]}
+    if rng.random() < 0.35:      # N-D, not C-ordered
+        NA = {"k": "array", "item": N, "shape": [2, rng.choice([2, None])], "order": [1, 0]}
+    else:
+        NA = {"k": "array", "item": N, "shape": [rng.choice([2, None])], "order": [0]}
     return dict(L0=L0, L1=L1, A=A, U=Un, N=N, D=D, NA=NA)
 
 
@@ -177,14 +181,18 @@ def gen_case(rng, nops, pid):
         names[name] = st.intern(t, v, buf)
         push({"op": "new", "name": name, "type": t, "value": v, "buf": buf})
     holder_t = rng.choice([W["N"], W["N"], W["D"], W["NA"]])
+    first = rng.choice(["h", "h", "x0", "x1"])     # which object gets offset 0 of B0
+    if first == "x0": new("x0", W["L0"], "B0")
+    if first == "x1": new("x1", W["L1"], "B0")
     new("h", holder_t, "B0")
-    new("x0", W["L0"], "B0"); new("x1", W["L1"], "B0")
+    if first != "x0": new("x0", W["L0"], "B0")
+    if first != "x1": new("x1", W["L1"], "B0")
     if rng.random() < 0.7: new("y0", W["L0"], rng.choice(["B1", "B2"]))
     if rng.random() < 0.5: new("y1", W["L1"], rng.choice(["B1", "B2"]))
     if rng.random() < 0.3: new("xa", W["A"], "B0")
     for k in range(nops):
         r = rng.random()
-        if pid == "C09" and r < 0.35:
+        if r < (0.35 if pid == "C09" else 0.10):
             src = rng.choice(["h"] + [n for n in names if n.startswith("c")])
             buf = rng.choice(["B0", "B0", "B1", "B2"])
             name = "c%d" % k
@@ -200,7 +208,7 @@ def gen_case(rng, nops, pid):
             cands = [t["target"]] if t["k"] == "ref" else list(t["members"])
             kind = rng.choice(["existing", "existing", "value", "foreign", "null"])
             via = rng.choice(["handle", "view"])
-            bop = {"op": "bind", "obj": target_name, "path": [list(s) for s in p], "via": via}
+            bop = {"op": "bind", "obj": target_name, "path": [list(s) for s in p], "via": via, "owner_rid": oid}
             if kind == "null":
                 cont[key] = {"ref": None} if t["k"] == "ref" else {"ref": None, "m": None}
                 bop["src"] = {"kind": "null"}; push(bop); continue
@@ -225,7 +233,7 @@ def gen_case(rng, nops, pid):
             oid, _, cont, key = st.walk(names[n], p)
             new_v = U.gen_like(rng, t, tr, fit=True)
             cont[key] = U.retag(t, tr, new_v)
-            push({"op": "write", "obj": n, "path": [list(s) for s in p], "type": t, "new": new_v, "via": rng.choice(["handle", "view"])})
+            push({"op": "write", "obj": n, "path": [list(s) for s in p], "type": t, "new": new_v, "via": rng.choice(["handle", "view"]), "owner_rid": oid})
         else:
             push({"op": "grow", "buf": rng.choice(["B0", "B0", "B1"]), "extra": rng.choice([64, 1000])})
     ops[-1]["dump"] = True
@@ -251,6 +259,9 @@ def judge_case(pid, c, r):
     for k, (op, st) in enumerate(zip(c["ops"], r["steps"])):
         kind = op["op"] + ("-" + op["src"]["kind"] if op["op"] == "bind" else "")
         mine = (op["op"] == "copy") == (pid == "C09") or op["op"] in ("write", "grow", "new")
+        # C08 on a copy step: what the copy *holds* is C09's business; that each of its references
+        # denotes a live object of the recorded type in its own buffer is C08's
+        slots_only = pid == "C08" and op["op"] == "copy"
         for b, al in st.get("allocs", {}).items():
             allocs_so_far[b] += al
         if not st["ok"]:
@@ -259,13 +270,18 @@ def judge_case(pid, c, r):
         for nm, ev in exp.items():
             o = st["objs"].get(nm)
             if o is None: continue
-            if "read_exc" in o:
-                return [("%s/read-after-%s-raises-%s" % (pid, kind, o["read_exc"]), o.get("read_msg"), k)] if mine else []
-            if G.strip_sizes(o["read"]) != G.strip_sizes(ev):
+            mine_o = mine
+            if slots_only and nm == op["name"]:
+                pass
+            elif "read_exc" in o:
+                return [("%s/read-after-%s-raises-%s" % (pid, kind, o["read_exc"]), o.get("read_msg"), k)] if mine_o else []
+            elif G.strip_sizes(o["read"]) != G.strip_sizes(ev):
                 who = "the-copy" if nm.startswith("c") else ("the-holder" if nm == "h" else "another-object")
-                return [("%s/value-of-%s-differs-after-%s" % (pid, who, kind), "object %s does not read as expected" % nm, k)] if mine else []
-            if "view_exc" in o or o.get("view_read") != o["read"]:
-                return [("%s/view-differs-from-handle-after-%s" % (pid, kind), "object %s" % nm, k)] if mine else []
+                return [("%s/value-of-%s-differs-after-%s" % (pid, who, kind), "object %s does not read as expected" % nm, k)] if mine_o else []
+            elif "view_exc" in o or o.get("view_read") != o["read"]:
+                return [("%s/view-differs-from-handle-after-%s" % (pid, kind), "object %s" % nm, k)] if mine_o else []
+            if slots_only and nm == op["name"]:
+                mine_o = True
             slots = {json.dumps(s["path"]): s for s in o.get("slots", [])}
             for p, rid, m in al.get(nm, []):
                 s = slots.get(json.dumps(p))
@@ -273,26 +289,26 @@ def judge_case(pid, c, r):
                     return [("%s/harness-problem" % pid, "slot %s of %s not reported" % (p, nm), k)]
                 if rid is None:
                     if s["rel"] != NULLVALUE or (s["tid"] is not None and s["tid"] != -1):
-                        return [("%s/null-not-stored-as-null-after-%s" % (pid, kind), "slot %s rel=%s tid=%s" % (p, s["rel"], s["tid"]), k)] if mine else []
+                        return [("%s/null-not-stored-as-null-after-%s" % (pid, kind), "slot %s rel=%s tid=%s" % (p, s["rel"], s["tid"]), k)] if mine_o else []
                     continue
                 if s["rel"] == NULLVALUE:
-                    return [("%s/reference-is-null-after-%s" % (pid, kind), "slot %s of %s" % (p, nm), k)] if mine else []
+                    return [("%s/reference-is-null-after-%s" % (pid, kind), "slot %s of %s" % (p, nm), k)] if mine_o else []
                 absoff = s["slot"] + s["rel"]
                 if s["tid"] is not None and s["tid"] != m:
-                    return [("%s/union-member-index-wrong-after-%s" % (pid, kind), "slot %s tid=%s expected %s" % (p, s["tid"], m), k)] if mine else []
+                    return [("%s/union-member-index-wrong-after-%s" % (pid, kind), "slot %s tid=%s expected %s" % (p, s["tid"], m), k)] if mine_o else []
                 tb = al["_buf"][str(rid)]
                 named = al["_named"].get(str(rid))
                 if named is not None and named in st["objs"]:
                     if st["objs"][named]["off"] != absoff or st["objs"][named]["buf"] != o["buf"]:
                         return [("%s/reference-does-not-denote-the-bound-object-after-%s" % (pid, kind),
-                                 "slot %s of %s points at %d, object %s is at %d" % (p, nm, absoff, named, st["objs"][named]["off"]), k)] if mine else []
+                                 "slot %s of %s points at %d, object %s is at %d" % (p, nm, absoff, named, st["objs"][named]["off"]), k)] if mine_o else []
                 elif rid in where:
                     if where[rid] != absoff:
-                        return [("%s/referent-moved-or-aliases-disagree-after-%s" % (pid, kind), "referent %s at %d, before %d" % (rid, absoff, where[rid]), k)] if mine else []
+                        return [("%s/referent-moved-or-aliases-disagree-after-%s" % (pid, kind), "referent %s at %d, before %d" % (rid, absoff, where[rid]), k)] if mine_o else []
                 else:
                     where[rid] = absoff
                     if not any(a <= absoff < a + max(sz, 1) for a, sz in allocs_so_far[o["buf"]]):
-                        return [("%s/referent-outside-any-allocation-after-%s" % (pid, kind), "slot %s of %s points at %d" % (p, nm, absoff), k)] if mine else []
+                        return [("%s/referent-outside-any-allocation-after-%s" % (pid, kind), "slot %s of %s points at %d" % (p, nm, absoff), k)] if mine_o else []
         # copies must not overlap their source
         if op["op"] == "copy" and pid == "C09":
             a, b = st["objs"][op["name"]], st["objs"][op["src"]]
@@ -436,6 +452,80 @@ def c06_histories(ctx, n, nops, shards):
         c = dict(cases[i]); c["ops"] = [dict(o) for o in c["ops"][:k + 1]]
         out.append((sig, what, dict(kind="concrete", tie="K-REF", case=c, failing_step=k, how_to_replay="./check C08 --replay <this file>  (same history runner; C06 judges handle vs fresh view)")))
     return out, dict(reference_histories=len(cases), handle_vs_view_reads=nreads)
+
+
+# ------------------------------------------------------------------ C03 over reference histories
+def c03_histories(ctx, n, nops, shards):
+    """C03 on objects holding references: every step of a history may change only bytes inside the allocation of the
+    object it assigns to (the object that contains the assigned slot / leaf, found by following references in the
+    model) and inside allocations made during the step (objects newly created for references, copies); growth
+    changes no byte below the old capacity.  Returns ([(sig, what, replay)], coverage)."""
+    rng = random.Random(ctx.seed + 303)
+    cases = []
+    for _ in range(n):
+        c = gen_case(rng, nops, "C09" if rng.random() < 0.3 else "C08")
+        for op in c["ops"]: op["dump"] = True
+        cases.append(c)
+    sh = (len(cases) + shards - 1) // shards
+    results = []
+    for r in run_impl_parallel(ctx, "refs", [{"cases": cases[i:i + sh]} for i in range(0, len(cases), sh)]):
+        results += r["results"]
+    bysig = {}; judged = 0; skipped = 0
+    for i, (c, r) in enumerate(zip(cases, results)):
+        if r.get("stage") or "steps" not in r: continue
+        allocs = {"B0": [], "B1": [], "B2": []}
+        prev = None
+        for k, (op, st) in enumerate(zip(c["ops"], r["steps"])):
+            new_allocs = st.get("allocs", {})
+            if not st.get("ok") or "mem" not in st:
+                break
+            if prev is not None:
+                kind = op["op"] + ("-" + op["src"]["kind"] if op["op"] == "bind" else "")
+                allowed = {b: [tuple(a) for a in new_allocs.get(b, [])] for b in ("B0", "B1", "B2")}
+                known = True
+                if op["op"] in ("bind", "write"):
+                    nm = op["alias"]["_named"].get(str(op["owner_rid"]))
+                    o = st["objs"].get(nm) if nm else None
+                    if o is None:
+                        known = False        # the owner is an anonymous referent: its place is not observed directly
+                    else:
+                        cont = [a for a in allocs[o["buf"]] if a[0] <= o["off"] < a[0] + max(a[1], 1)]
+                        allowed[o["buf"]].append((o["off"], o["size"]) if not cont else tuple(cont[-1]))
+                if known:
+                    judged += 1
+                    for b in ("B0", "B1", "B2"):
+                        old, new = prev[b], st["mem"][b]
+                        bad = [j for j in range(min(len(old), len(new))) if old[j] != new[j] and not any(a <= j < a + s for a, s in allowed[b])]
+                        if bad:
+                            sig = "C03/refs/bytes-outside-the-assigned-object-and-new-objects-changed-by-%s" % kind
+                            what = "buffer %s: bytes %s.. changed; allowed regions %s" % (b, bad[:6], allowed[b])
+                            if sig not in bysig or k < bysig[sig][2]: bysig[sig] = (i, what, k)
+                            break
+                else:
+                    skipped += 1
+            for b, al in new_allocs.items(): allocs[b] += [tuple(a) for a in al]
+            prev = st["mem"]
+    out = []
+    for sig, (i, what, k) in sorted(bysig.items()):
+        c = dict(cases[i]); c["ops"] = [dict(o) for o in c["ops"][:k + 1]]
+        out.append((sig, what, dict(kind="concrete", tie="K-REF", mode="c03", case=c, failing_step=k, how_to_replay="./check C03 --replay <this file>")))
+    return out, dict(reference_histories=len(cases), steps_with_byte_frame_judged=judged, steps_with_anonymous_owner_not_judged=skipped)
+
+
+def c03_replay(ctx, r):
+    c = r["case"]
+    for op in c["ops"]: op["dump"] = True
+    res = run_impl(ctx, "refs", {"cases": [c]})["results"][0]
+    k = r.get("failing_step", len(c["ops"]) - 1)
+    steps = res.get("steps", [])
+    if len(steps) <= k or "mem" not in steps[k] or "mem" not in steps[k - 1]:
+        print("history does not reach the step"); return 0
+    ch = {b: [j for j in range(min(len(steps[k - 1]["mem"][b]), len(steps[k]["mem"][b]))) if steps[k - 1]["mem"][b][j] != steps[k]["mem"][b][j]] for b in ("B0", "B1", "B2")}
+    print("step %d (%s): changed bytes per buffer: %s; allocations in the step: %s; objects: %s" % (
+        k, c["ops"][k]["op"], {b: (v[:4], len(v)) for b, v in ch.items() if v}, steps[k].get("allocs"),
+        {nm: (o["buf"], o["off"], o["size"]) for nm, o in steps[k]["objs"].items()}))
+    print("see the check's judgement for the allowed regions; REPRODUCED if the check reports it again")
+    return 1
 
 
 def c06_replay(ctx, r):
